@@ -153,3 +153,36 @@ func bracketCount(s string) (int, int) {
 	}
 	return o, c
 }
+
+// nonASCIIScalar: one symbolic Unicode scalar value above U+007F - the whole code space (two-, three- and
+// four-byte encodings, noncharacters, U+FFFD, fullwidth forms, ...) in one position.
+func nonASCIIScalar() string {
+	r := rune(vnd.U32())
+	vnd.Assume(r >= 0x80 && ((r <= 0xD7FF) || (r >= 0xE000 && r <= 0x10FFFF)))
+	return string(r)
+}
+
+// mixedWindow: a window of 1..n items, each an arbitrary byte or a symbolic non-ASCII scalar value, at
+// least one of them a scalar value (pure byte windows are what vnd.Str gives). n is 1 or 2 (3 in some
+// thorough tiers): patterns R | RR BR RB | RRR BRB RBR.
+func mixedWindow(n int) string {
+	switch n {
+	case 1:
+		return nonASCIIScalar()
+	case 2:
+		switch vnd.Pick(3) {
+		case 0:
+			return nonASCIIScalar() + nonASCIIScalar()
+		case 1:
+			return vnd.Str(1) + nonASCIIScalar()
+		}
+		return nonASCIIScalar() + vnd.Str(1)
+	}
+	switch vnd.Pick(3) {
+	case 0:
+		return nonASCIIScalar() + nonASCIIScalar() + nonASCIIScalar()
+	case 1:
+		return vnd.Str(1) + nonASCIIScalar() + vnd.Str(1)
+	}
+	return nonASCIIScalar() + vnd.Str(1) + nonASCIIScalar()
+}
